@@ -271,6 +271,10 @@ func (s *stack) push(p *Path) {
 		parent.Next = p
 		p.Parent = parent
 	}
+	if s.count == len(s.steps) {
+		// paths longer than the room reserved for them
+		s.steps = append(s.steps, make([]*Path, len(s.steps))...)
+	}
 	s.steps[s.count] = p
 	s.count++
 }
